@@ -127,6 +127,7 @@ type Interp struct {
 	Ext          func(ip *Interp, callee *ssa.Function, args []AV) (AV, bool)
 	AntiStable   bool // sort models place equal elements in reverse input order
 	MapOrderUsed bool // a map was iterated: the result may depend on iteration order
+	MapDesc      bool // iterate maps in descending key order (the other representative of "any order")
 	// OnExt is called when an ExtFn value is called.
 	OnExt func(ip *Interp, name string, args []AV) AV
 	// OnInvoke is called for an interface method call whose receiver is an opaque symbol.
@@ -1213,6 +1214,11 @@ func (ip *Interp) value(fr *aframe, v ssa.Value) AV {
 			ip.MapOrderUsed = true
 			keys := append([]string{}, m.Keys...)
 			sort.Strings(keys)
+			if ip.MapDesc {
+				for i, j := 0, len(keys)-1; i < j; i, j = i+1, j-1 {
+					keys[i], keys[j] = keys[j], keys[i]
+				}
+			}
 			return &iterV{m: m, keys: keys, keyT: x.X.Type().Underlying().(*types.Map).Key()}
 		case NilV:
 			return &iterV{}
